@@ -82,6 +82,44 @@ def layout_rules2(chk, fx):
                             '"invalid character"', LEX, n.get('l'))
                 break
         chk.need(found, 'Lexer::next: the branch that skips a multi-line comment was not found')
+    chk.rule('C10-R10', 'blank lines are invisible where a block is about to open: every place of the parser that expects an Indent token (block body, `:`-style arguments, the '
+                        'definitions after `C.` / `C::`) first skips any run of Newline tokens, and the Newline after a decorator is followed by the same skipping (sibling rule: all '
+                        'sites agree)')
+    nind = 0
+    for f in fx.fns(PARSE, 'erg_parser'):
+        for blk in T.walk(f['body']):
+            if blk.get('k') != 'Block':
+                continue
+            stmts = [T.unsemi(x) for x in T.stmts_of(blk)]
+            for i, st in enumerate(stmts):
+                m = st.get('m') or []
+                txt = T.show(st)
+                is_expect_indent = bool(m) and m[0] == 'expect_pop' and any(x.get('k') == 'Path' and (x.get('d') or '').endswith('TokenKind::Indent') for x in T.walk(st))
+                is_deco_newline = T.norm(f['path']) == 'Parser::opt_reduce_decorators' and bool(m) and m[0] == 'expect_pop' and \
+                    any(x.get('k') == 'Path' and (x.get('d') or '').endswith('TokenKind::Newline') for x in T.walk(st))
+                if not (is_expect_indent or is_deco_newline):
+                    continue
+
+                def skips_newlines(x):
+                    return x is not None and x.get('k') == 'Loop' and any(c.get('k') == 'MCall' and c['n'] == 'cur_is' and 'Newline' in T.show(c) for c in T.calls(x)) \
+                        and any(c.get('k') == 'MCall' and c['n'] in ('skip', 'lpop') for c in T.calls(x))
+                nind += 1
+                where = T.norm(f['path'])
+                if is_expect_indent:
+                    prev = stmts[i - 1] if i > 0 else None
+                    if skips_newlines(prev):
+                        chk.ok('C10-R10', (where, 'indent', st.get('l')))
+                    else:
+                        chk.bad('C10-R10', where, 'indent-without-newline-skip', '%s expects an Indent token without first skipping Newline tokens: a blank line before the indented block '
+                                '(e.g. directly after `C.`) is a syntax error' % where, PARSE, st.get('l'))
+                else:
+                    nxt_ = stmts[i + 1] if i + 1 < len(stmts) else None
+                    if skips_newlines(nxt_):
+                        chk.ok('C10-R10', (where, 'decorator', st.get('l')))
+                    else:
+                        chk.bad('C10-R10', where, 'decorator-newline', 'after a decorator exactly one Newline is consumed: a blank line between the decorator and the definition is a '
+                                'syntax error', PARSE, st.get('l'))
+    chk.floor('Indent expectations / decorator line ends in the parser', nind, 4)
     of = fns.get('Lexer::op_fix')
     if chk.need(of is not None, 'Lexer::op_fix not found'):
         inner = [m for m in T.walk(of['body']) if m.get('k') == 'Match' and T.peel(m['x']).get('k') == 'Tup']
